@@ -191,23 +191,24 @@ def insitu_configs(tier):
     """The real ConsumerGroup as group leader over several generations while topics grow."""
     cl = {"brokers": [1, 2], "topics": {"t": {"0": 1, "1": 2}, "u": {"0": 1}}, "coordinator": 2}
     events = [["add_partition", "t", 2, 1], ["add_partition", "u", 1, 2], ["phantom_joins", "grp"],
-              ["phantom_leaves", "grp"]]
+              ["phantom_leaves", "grp"], ["move", "t", 1, -1]]
     out = []
-    for phantom, ptopics in ((False, ["t"]), (True, ["t"]), (True, ["t", "u"])):
+    for phantom, ptopics in ((False, ["t"]), (True, ["t"]), (True, ["t", "u"]))[::1 if tier != "quick" else 2]:
         out.append({"prop": "C15", "cluster": cl, "discovery": False, "timeout_ms": 5000, "topics": ["t", "u"],
                     "logs": {"t/0": 1, "t/1": 1, "u/0": 1},
                     "group": {"leader": "real", "phantom_topics": ptopics, "phantom_active": phantom},
                     "processor": "sync", "commit_every_n": 1,
-                    "script": [["start"], ["stop", {"consumed": True, "time": 7.0}]],
-                    "menu": {"err": {"12": [27]}, "cluster_events": events, "timer_early": True}, "horizon_s": 400})
+                    "script": [["start"], ["stop", {"time": 9.0}]],
+                    "menu": {"err": {"12": [27]}, "cluster_events": events, "timer_early": tier != "quick"},
+                    "horizon_s": 40})
     # scripted: the topic grows while the member is stable, then the coordinator asks for a rebalance
     out.append({"prop": "C15", "cluster": dict(cl, modes=[{"api": 12, "err": 27, "budget": 1}]), "discovery": False,
                 "timeout_ms": 5000, "topics": ["t", "u"], "logs": {"t/0": 1, "t/1": 1, "u/0": 1},
                 "group": {"leader": "real", "phantom_topics": ["t"], "phantom_active": True},
                 "processor": "sync", "commit_every_n": 1,
                 "script": [["start"], ["add_partition", "t", 5, 1, {"time": 1.5}],
-                           ["stop", {"consumed": True, "time": 9.0}]],
-                "menu": {"timer_early": True, "cluster_events": events[1:]}, "horizon_s": 400})
+                           ["stop", {"time": 9.0}]],
+                "menu": {"timer_early": True, "cluster_events": events[1:]}, "horizon_s": 40})
     return out
 
 
@@ -228,12 +229,13 @@ def run(tier, seed, only=None):
         from checks import _dfs
         rule = rep.coverage["rule"]
         _dfs.run_plans(PROPERTY, "harness.group:GroupWorld",
-                       [("leader-in-situ", insitu_configs(tier), (2, 1, 2) if tier == "quick" else (3, 1, 4))],
+                       [("leader-in-situ", insitu_configs(tier), (2, 1, 2) if tier == "quick" else (3, 1, 3))],
                        seed, rule, rep.assumptions, rep=rep, max_steps=500)
         rep.level = "exploration"
         rep.coverage["in_situ_rule"] = (
             "real ConsumerGroup + KafkaClient elected leader of a group with an optional phantom member (subscribed "
-            "to t or t+u) over topics t (2 partitions) and u (1); cluster events: t and u each gain a partition, "
+            "to t or t+u) over topics t (2 partitions) and u (1); cluster events: t and u each gain a partition, a "
+            "partition of t loses its leader (election in progress), "
             "phantom joins / leaves, heartbeat answered REBALANCE_IN_PROGRESS; every SyncGroup request the leader "
             "writes must give each partition that existed when it was elected to exactly one subscriber and nothing "
             "that does not exist.  Non-trivial = the member led at least two generations.")
